@@ -15,9 +15,15 @@ RULE = ('cwrs: for every (N,K) of the static mode\'s pulse cache (23 band sizes 
         'encode_pulses on random K-pulse vectors of four shapes; bits2pulses for bits -2..300 and pulses2bits on every cache row. '
         'laplace: all 32768 fm and all values -17000..17000 (clamping included) for every distinct (fs,decay) pair of '
         'e_prob_model plus random legal pairs incl. the domain corners; _p0 variants on random (p0,decay,value). '
+        'alloc: clt_compute_allocation (real rate.c, only the four ec_* entry points stubbed) on 40k (quick) / 400k (thorough) random '
+        'inputs per run: all LM, C, the CELT-only and hybrid band ranges plus random ones, totals -20..81600 incl. 0 and 8, trims 0..10, '
+        'dynalloc-like offsets up to cap+quanta, encoder and decoder side, every output array and the coder calls compared; and every '
+        'REAL call made by the encoder and decoder while coding 120 configurations (link-time --wrap). '
         'A case is one protocol line; a block line stands for up to 4096 (cwrs) / 32768 (laplace) compared evaluations; '
         'distinct = (op, outcome kind) classes')
 NOT_COVERED = [
+    'bit allocation: the FUZZING build\'s random skip decision, custom modes (only the static 48 kHz mode\'s tables), and the true cost of '
+    'ec_enc_uint for the intensity parameter (charged at LOG2_FRAC_TABLE[codedBands-start] as the allocator itself does; C08 bounds the coder)',
     'the range coder itself (ec_enc_uint/ec_dec_uint, ec_encode_bin/ec_decode_bin, ec_enc_icdf/ec_dec_icdf) is property C08; '
     'here it is stubbed in the correspondence and used for real only in the witness search',
     'compute_pulse_cache is CUSTOM_MODES-only code and is not part of the library in this configuration: the theorems tie its Lean '
@@ -28,6 +34,9 @@ NOT_COVERED = [
     'that each call site passes the ftb recorded in OpusModel/Icdf.lean is checked by a source scan (tie icdf-ftb-scan), not by the compiler',
 ]
 ASSUMPTIONS = [
+    'bit allocation: start < end <= 21, C in {1,2}, LM <= 3, offsets >= 0, 0 <= cap <= 2^24 (proved for init_caps), total <= 2^24; on the '
+    'encoder side dual_stereo in {0,1} and start <= intensity (celt_encoder.c clamps both); C int arithmetic modelled unbounded with the '
+    'uint32 conversion of celt_udiv modelled exactly',
     'cwrsi is called with _i < V(_n,_k) (guaranteed by ec_dec_uint)',
     'C unsigned/int arithmetic is modelled unbounded; cache_reachable_fits / LaplaceOk bound every intermediate below 2^32 on the stated domain',
 ]
@@ -41,7 +50,8 @@ REQUIRED_THEOREMS = [
     'OpusProps.C17.laplace_tiles', 'OpusProps.C17.laplace_p0_roundtrip', 'OpusProps.C17.laplace_p0_icdfs_ok',
     'OpusProps.C17.laplace_domain_ok', 'OpusProps.C17.laplace_int_ranges', 'OpusProps.C17.bits2pulses_spec',
     'OpusProps.C17.pulses2bits_cache', 'OpusProps.C17.cache_caps_recomputed', 'OpusProps.C17.cwrs_int_ranges',
-    'OpusProps.C17.cwrs_val_ranges',
+    'OpusProps.C17.cwrs_val_ranges', 'OpusProps.C17.init_caps_domain', 'OpusProps.C17.alloc_total_ranges_budget',
+    'OpusProps.C17.alloc_enc_dec_agree',
 ]
 UNPROVED = []
 LEVEL_TEXT = ('full proof: U/V recurrence and symmetry; cwrsi and icwrs (transcribed loop by loop from cwrs.c, both branches and '
@@ -53,7 +63,9 @@ LEVEL_TEXT = ('full proof: U/V recurrence and symmetry; cwrsi and icwrs (transcr
               'clamping for every (fs,decay) satisfying LaplaceOk, which is proved for the whole documented domain 0<fs<=32736, 0<decay<=11456 '
               '(and checked on every e_prob_model pair); the _p0 variants round-trip and their run-time ICDFs are exact codes; bits2pulses is '
               'characterised exactly (nearest neighbour of the budget, lower index on a tie) on every cache row, pulses2bits is monotone '
-              '(strict for N>=3); cache.caps equals its recomputation; icwrs/cwrsi/laplace intermediates stay below 2^32')
+              '(strict for N>=3); cache.caps equals its recomputation; icwrs/cwrsi/laplace intermediates stay below 2^32; the CELT bit '
+              'allocation (clt_compute_allocation + interp_bits2pulses + init_caps, transcribed) is total on its domain, keeps every output in '
+              'range, meets the budget exactly, and its decoder side reproduces the encoder side from the coded symbols')
 LEVEL_NOTE = ('trusted: Lean kernel; the extractors tools/extract/CeltTables.c, SilkIcdf.c (tables go through the C compiler); the '
               'transcription of cwrs.c/laplace.c into Lean, tied by exact differential runs on the real code under ASan/UBSan with only '
               'the range-coder entry points stubbed; ftb values and table slices per call site (source scan + the tables captured at the '
